@@ -98,7 +98,7 @@ class LocalInference:
             #print(np.sqrt(dL.dot(dL)), np.sqrt(theta.dot(theta)))
             mu = model.belief_propagation(theta)
             if l > prev_l:
-                if t <= 50:
+                if t <= 50 and alpha > 1e-9:
                     if self.log: print('Reducing learning rate and restarting', alpha/2)
                     model.potentials = theta0
                     model.messages = messages0
